@@ -3,7 +3,7 @@
    LW.Sec.JoinSpec (LoRaWAN 1.1 section 6.2.2-6.2.4, 1.0.x section 6.2.4-6.2.5). *)
 From Coq Require Import List NArith ZArith Bool.
 From LW Require Import Base.Outcome Base.Bytes Crypto.AES Crypto.AESInv Crypto.CMAC Mac.Commands Mac.Stream
-     Frame.Model Frame.Spec Sec.MIC Sec.JoinAccept Sec.JoinSpec Sec.JoinAcceptProofs.
+     Frame.Model Frame.Spec Frame.RoundtripProofs Sec.MIC Sec.JoinAccept Sec.JoinSpec Sec.JoinAcceptProofs.
 Import ListNotations.
 Open Scope N_scope.
 
@@ -78,18 +78,23 @@ Proof. exact device_recovers_frame. Qed.
 Print Assumptions C04_device_recovers_frame.
 
 (* 12- and 28-byte forms, both CFList kinds; equality modulo trailing all-zero channel masks
-   (known finding C04-1).  The premise is the join-accept payload codec round trip of C01
-   (to be discharged from Frame/*Proofs.v). *)
-Theorem C04_decrypt_encrypt :
-  (forall p, spec_valid p = true -> is_join_accept p ->
-     exists body, payload_marshal (pl p) = Ok body /\ Forall byte body /\
-                  (length body = 12 \/ length body = 28)%nat /\
-                  joinaccept_unmarshal body = Ok (wire_payload (pl p))) ->
-  forall key p,
-    Forall byte key -> spec_valid p = true -> is_join_accept p ->
-    exists q, encrypt_join_accept key p = Ok q /\ decrypt_join_accept key q = Ok (wire_phy p).
-Proof. exact decrypt_encrypt. Qed.
+   (known finding C04-1).  The join-accept payload codec round trip of C01 is
+   LW.Frame.RoundtripProofs.joinaccept_codec. *)
+Theorem C04_decrypt_encrypt : forall key p,
+  Forall byte key -> spec_valid p = true -> is_join_accept p ->
+  exists q, encrypt_join_accept key p = Ok q /\ decrypt_join_accept key q = Ok (wire_phy p).
+Proof. exact (decrypt_encrypt joinaccept_codec). Qed.
 Print Assumptions C04_decrypt_encrypt.
+
+(* literal equality where no mask is lost: no CFList, a channel list, or masks whose last one is not all zero *)
+Theorem C04_decrypt_encrypt_literal : forall key p,
+  Forall byte key -> spec_valid p = true -> is_join_accept p -> wire_phy p = p ->
+  exists q, encrypt_join_accept key p = Ok q /\ decrypt_join_accept key q = Ok p.
+Proof.
+  intros key p Hk Hv Hj Hw. destruct (decrypt_encrypt joinaccept_codec key p Hk Hv Hj) as (q & H1 & H2).
+  exists q. split; [exact H1|]. now rewrite Hw in H2.
+Qed.
+Print Assumptions C04_decrypt_encrypt_literal.
 
 Theorem C04_decrypt_encrypt_literal_refuted :
   spec_valid c04_witness = true /\ is_join_accept c04_witness /\
